@@ -280,24 +280,29 @@ class SmallVector {
    **/
   template <typename... Args>
   reference emplace_back(Args&&... args) {
-    T* ptr;
-    if (isInline()) {
-      size_type sz = rawSize();
-      if (sz < N) {
-        ptr = inlineData();
-      } else {
-        growToHeap(N * 2);
-        ptr = storage_.heap_.ptr;
-      }
-    } else {
-      size_type sz = rawSize();
-      if (sz == storage_.heap_.capacity) {
-        growToHeap(storage_.heap_.capacity * 2);
-      }
-      ptr = storage_.heap_.ptr;
-    }
     size_type idx = rawSize();
-    new (ptr + idx) T(std::forward<Args>(args)...);
+    T* ptr;
+    if (idx == capacity()) {
+      // Growing moves the existing elements out of the old storage and destroys them, and args may
+      // refer to one of them (v.push_back(v[0]) is valid for std::vector): construct the new
+      // element in the new storage before the old storage is vacated.
+      size_type newCap = capacity() * 2;
+      ptr = allocateHeap(newCap);
+#if defined(__cpp_exceptions)
+      try {
+        new (ptr + idx) T(std::forward<Args>(args)...);
+      } catch (...) {
+        freeHeap(ptr);
+        throw;
+      }
+#else
+      new (ptr + idx) T(std::forward<Args>(args)...);
+#endif // __cpp_exceptions
+      relocateToHeap(ptr, newCap);
+    } else {
+      ptr = data();
+      new (ptr + idx) T(std::forward<Args>(args)...);
+    }
     // Increment preserves heap bit naturally
     ++size_;
     assert(rawSize() > 0 && "Size overflow into heap bit");
@@ -442,7 +447,12 @@ class SmallVector {
   // Grow to heap storage with the specified capacity.
   // Moves existing elements, frees old heap if applicable, sets heap bit.
   void growToHeap(size_type newCap) {
-    T* newData = allocateHeap(newCap);
+    relocateToHeap(allocateHeap(newCap), newCap);
+  }
+
+  // Move the existing elements into newData (storage for newCap elements), free the old heap
+  // block if applicable, and make newData the vector's storage.
+  void relocateToHeap(T* newData, size_type newCap) {
     T* oldData = data();
     size_type sz = rawSize();
 
